@@ -14,7 +14,7 @@ RULE = ('all 23 message classes x {SOP class UID of every length 1..64, SOP inst
 ASSUMPTIONS = ['Association is built over a stub provider that records the generator handed to dul.send',
                'out of alphabet: empty file objects as data set']
 
-OPS = ['status', 'dataset_longer', 'dataset_shorter', 'dataset_empty', 'dataset_none', 'counters', 'uid_longer', 'extra_element', 'none']
+OPS = ['status', 'dataset_longer', 'dataset_shorter', 'dataset_empty', 'dataset_none', 'counters', 'uid_longer', 'uid_shorter', 'extra_element', 'none']
 
 
 def domain(tier):
@@ -119,6 +119,8 @@ def run_case(case):
             msg.num_of_completed_sub_ops = 9
         elif op == 'uid_longer' and msg.sop_class_uid is not None:
             msg.sop_class_uid = '1.2.840.10008.5.1.4.1.2.2.100'
+        elif op == 'uid_shorter' and msg.sop_class_uid is not None:
+            msg.sop_class_uid = '1.2'
         try:
             got = b''.join(p.encode() for p in kept[0])
         except Exception as exc:
@@ -152,6 +154,8 @@ def run_case(case):
                 msg.num_of_completed_sub_ops = n
             elif op == 'uid_longer' and msg.sop_class_uid is not None:
                 msg.sop_class_uid = '1.2.840.10008.5.1.4.1.2.2.%d' % (10 ** n)
+            elif op == 'uid_shorter' and msg.sop_class_uid is not None:
+                msg.sop_class_uid = '1.%d' % n
             try:
                 assoc.send(msg, 1)
             except Exception as exc:
